@@ -594,6 +594,8 @@ class Folder:
                 r = a == b
             return r if isinstance(op, ast.Eq) else not r
         if isinstance(a, sp.Basic) or isinstance(b, sp.Basic):
+            if isinstance(a, (Opaque, Rec)) or isinstance(b, (Opaque, Rec)):
+                raise Undecidable(f"ordering comparison {norm(node)} on {a!r}, {b!r}")
             rel = {ast.Lt: sp.Lt, ast.LtE: sp.Le, ast.Gt: sp.Gt, ast.GtE: sp.Ge}[type(op)](sp.sympify(a), sp.sympify(b))
             if rel is sp.true:
                 return True
@@ -816,8 +818,12 @@ class Folder:
                 return v if v.is_real else sp.re(v)
         if fn in ("np.exp", "numpy.exp", "math.exp", "exp") and len(args) == 1:
             return sp.exp(sp.sympify(args[0]))
-        if fn in ("np.cos", "np.sin", "math.cos", "math.sin", "np.sqrt", "math.sqrt") and len(args) == 1:
-            return {"cos": sp.cos, "sin": sp.sin, "sqrt": sp.sqrt}[fn.split(".")[1]](sp.sympify(args[0]))
+        if fn in ("np.cos", "np.sin", "math.cos", "math.sin", "np.sqrt", "math.sqrt", "sqrt", "cos", "sin") and len(args) == 1 and \
+                isinstance(args[0], (int, float, complex, sp.Basic)) and not isinstance(args[0], bool):
+            if isinstance(args[0], (int, float)) and fn.split(".")[-1] == "sqrt" and args[0] >= 0:
+                import math as _m
+                return _m.sqrt(args[0])
+            return {"cos": sp.cos, "sin": sp.sin, "sqrt": sp.sqrt}[fn.split(".")[-1]](sp.sympify(args[0]))
         if fn == "abs" and len(args) == 1 and isinstance(args[0], sp.Basic):
             return sp.Abs(args[0])
         if fn == "eval" and len(args) == 1 and isinstance(args[0], str):
